@@ -35,10 +35,19 @@ def run(tier, seed, replay_rows=None):
                      describe=lambda r: json.dumps(dict(cfg=r["cfg"], accepted=r["accepted"], plan=r["plan"], total=r["total_ms"], msg=r.get("msg")))[:1200],
                      selftest=selftest, replay_rows=replay_rows, workers=8)
     if replay_rows is None:
+        # the jitter field (not visible in the plan view above, which needs deterministic rate functions): own value -
+        # also an explicit 0 - else the default's, else none; 4 modes x 3 x 3 placements, observed through behaviour
+        vlib.flow(ck, mcs=[], sub="c15jit", trace_module="Trace_ConfigJitter", trace_cfg="Trace_ConfigJitter.cfg",
+                  trace_file="c15jit.ndjson", var="l", key_of=lambda r: "jitter-inheritance-differs@" + r["mode"],
+                  describe=lambda r: json.dumps(r)[:900], workers=2)
+    if replay_rows is None:
         # run-time clauses: stages strictly sequential, parameters in the environment while triggering, none left
         runtraces.check(ck, "C15", only="file")
     return ck.finish()
 
 
 def replay(path, seed):
+    rp = json.load(open(path))
+    if rp["replay"].get("sub") != "c15":
+        return run("quick", seed)          # jitter / run-time observations are re-made on the current tree
     return vlib.std_replay(run, path, seed)
